@@ -6,19 +6,24 @@ call → critical section under `p_future->lock` (with the atomic accesses to `c
   set(v):   acquire; counter = relaxed_load(&counter)  (`ldCnt`);
             if (counter >= num_compartments) { release; return ABT_ERR_FUTURE }       (0 compartments: always)
             array[counter] = v; counter++;                                           (plain, right after the load)
-            if (counter == num_compartments && p_callback) (*p_callback)(array)       (`cb`)
+            if (counter == num_compartments && p_callback) (*p_callback)(array)       (`cbBegin` … `cb` = it returned)
             release_store(&counter, counter)                                          (`stCnt`)
             if (counter == num_compartments) broadcast (`wake` per node);  release (`rel`)
   wait:     tasklet (1.x API) → ABT_ERR_FUTURE before touching anything
             acquire; if (relaxed_load(&counter) < num_compartments) { enqueue; wait_and_unlock ... woken } else release
   test:     counter = acquire_load(&counter) (`tload`, no lock); *is_ready = (counter == num_compartments)
   reset:    acquire; release_store(&counter, 0) (`stCnt`); release
+  free:     acquire (and never release: "we do not have to unlock it because the entire structure is freed here");
+            free(array); free(p_future)                                    — the caller stays at `freed` for good
+
+The callback is user code that takes time: `cbBegin` is its invocation, `cb` its return (with the array contents it
+saw).  Other callers run in between; in particular the lock-free ABT_future_test loads the counter (`tload`).
 
 `rel` carries the snapshot of the object taken when the lock word is cleared (counter, num_compartments,
 wait-list empty?).  `cb` carries the array contents the callback saw, `arr` a dump of array[0..counter).
 
-Ghost: `epoch` = number of resets, `sets k` = counter stores by sets in epoch k, `cbRuns k` = callback
-invocations in epoch k, `vals` = the values of this epoch's successful sets in compartment order,
+Ghost: `epoch` = number of resets, `sets k` = counter stores by sets in epoch k, `cbBeg k` = callback
+invocations in epoch k, `cbRuns k` = callback invocations of epoch k that have returned, `vals` = the values of this epoch's successful sets in compartment order,
 `relEpoch a` = epoch in which a's current call observed the counter / was woken.
 -/
 namespace ArgoVerif.Model.Future
@@ -33,7 +38,7 @@ deriving DecidableEq, Repr
 inductive Rc | ok | errFuture
 deriving DecidableEq, Repr
 
-inductive Op | set | wait | test | reset
+inductive Op | set | wait | test | reset | free
 deriving DecidableEq, Repr
 
 inductive Pc
@@ -43,6 +48,7 @@ inductive Pc
   | setCS        -- lock held, about to load the counter
   | setErrCS | setErrDone
   | setCbCS      -- compartment written, it was the last one and a callback exists: about to call it
+  | setCbRun     -- inside the callback (lock held, counter not yet stored)
   | setStCS      -- about to release-store the incremented counter
   | setBcCS      -- counter = num_compartments stored: broadcasting
   | setRelCS     -- counter < num_compartments stored: about to release
@@ -55,6 +61,9 @@ inductive Pc
   | waitDone
   | testCalled | testDone0 | testDone1
   | resetCalled | resetCS | resetStCS | resetDone
+  | freeCalled   -- ABT_future_free: about to acquire the lock
+  | freeCS       -- lock held (for ever), the memory is being released
+  | freed        -- ABT_future_free has returned; the object is gone, the lock word stays taken
 deriving DecidableEq, Repr
 
 inductive Ev
@@ -62,6 +71,7 @@ inductive Ev
   | ret (a : Actor) (op : Op) (rc : Rc) (ready : Bool)
   | acq (a : Actor) (old : Bool)
   | ldCnt (a : Actor) (v : Nat)
+  | cbBegin (a : Actor)
   | cb (a : Actor) (vals : List Val)
   | stCnt (a : Actor) (v : Nat)
   | enq (a : Actor)
@@ -86,13 +96,14 @@ structure St where
   loc : Actor → Nat           -- the setter's local `counter`
   epoch : Nat                 -- ghost
   sets : Nat → Nat            -- ghost
+  cbBeg : Nat → Nat           -- ghost
   cbRuns : Nat → Nat          -- ghost
   vals : List Val             -- ghost
   relEpoch : Actor → Nat      -- ghost
 
 def init (kind : Actor → Kind) (n : Nat) (hasCb : Bool) : St :=
   { kind, n, hasCb, counter := 0, arr := fun _ => 0, lock := none, q := [], pc := fun _ => .idle, arg := fun _ => 0,
-    loc := fun _ => 0, epoch := 0, sets := fun _ => 0, cbRuns := fun _ => 0, vals := [], relEpoch := fun _ => 0 }
+    loc := fun _ => 0, epoch := 0, sets := fun _ => 0, cbBeg := fun _ => 0, cbRuns := fun _ => 0, vals := [], relEpoch := fun _ => 0 }
 
 def setPc (s : St) (a : Actor) (p : Pc) : St := { s with pc := upd s.pc a p }
 
@@ -103,6 +114,7 @@ def stepCall (s : St) (a : Actor) (op : Op) (v : Val) : Option St :=
   | .wait => some (setPc s a (if s.kind a = .task then .rejected else .waitCalled))
   | .test => some (setPc s a .testCalled)
   | .reset => some (setPc s a .resetCalled)
+  | .free => some (setPc s a .freeCalled)
 
 def stepRet (s : St) (a : Actor) (op : Op) (rc : Rc) (r : Bool) : Option St :=
   match s.pc a, op, rc with
@@ -114,6 +126,7 @@ def stepRet (s : St) (a : Actor) (op : Op) (rc : Rc) (r : Bool) : Option St :=
   | .testDone0, .test, .ok => if r = false then some (setPc s a .idle) else none
   | .testDone1, .test, .ok => if r = true then some (setPc s a .idle) else none
   | .resetDone, .reset, .ok => some (setPc s a .idle)
+  | .freeCS, .free, .ok => some (setPc s a .freed)
   | _, _, _ => none
 
 def lockAs (s : St) (a : Actor) (p : Pc) : St := setPc { s with lock := some a } a p
@@ -121,13 +134,14 @@ def lockAs (s : St) (a : Actor) (p : Pc) : St := setPc { s with lock := some a }
 def stepAcq (s : St) (a : Actor) (old : Bool) : Option St :=
   if old ≠ s.lock.isSome then none else
   if old then
-    (if s.pc a = .setCalled ∨ s.pc a = .waitCalled ∨ s.pc a = .resetCalled ∨
+    (if s.pc a = .setCalled ∨ s.pc a = .waitCalled ∨ s.pc a = .resetCalled ∨ s.pc a = .freeCalled ∨
         ((s.pc a = .waiting ∨ s.pc a = .woken) ∧ s.kind a ≠ .ult) then some s else none)
   else
     match s.pc a with
     | .setCalled => some (lockAs s a .setCS)
     | .waitCalled => some (lockAs s a .waitLdCS)
     | .resetCalled => some (lockAs s a .resetCS)
+    | .freeCalled => if s.q = [] then some (lockAs s a .freeCS) else none   -- UB assertion: no waiter is queued
     | .waiting => if s.kind a = .ult then none else some (lockAs s a .reW)
     | .woken => if s.kind a = .ult then none else some (lockAs s a .reR)
     | _ => none
@@ -146,8 +160,13 @@ def stepLdCnt (s : St) (a : Actor) (v : Nat) : Option St :=
           else setPc { s with relEpoch := upd s.relEpoch a s.epoch } a .passCS)
   | _ => none
 
+def stepCbBegin (s : St) (a : Actor) : Option St :=
+  if s.pc a = .setCbCS then
+    some (setPc { s with cbBeg := upd s.cbBeg s.epoch (s.cbBeg s.epoch + 1) } a .setCbRun)
+  else none
+
 def stepCb (s : St) (a : Actor) (vs : List Val) : Option St :=
-  if s.pc a = .setCbCS ∧ vs = (List.range s.n).map s.arr then
+  if s.pc a = .setCbRun ∧ vs = (List.range s.n).map s.arr then
     some (setPc { s with cbRuns := upd s.cbRuns s.epoch (s.cbRuns s.epoch + 1) } a .setStCS)
   else none
 
@@ -198,6 +217,7 @@ def step (s : St) : Ev → Option St
   | .ret a op rc r => stepRet s a op rc r
   | .acq a old => stepAcq s a old
   | .ldCnt a v => stepLdCnt s a v
+  | .cbBegin a => stepCbBegin s a
   | .cb a vs => stepCb s a vs
   | .stCnt a v => stepStCnt s a v
   | .enq a => stepEnq s a
